@@ -1,7 +1,7 @@
 META = {
     "level": "model_checking",
     "technique": "TLA+ model of one direction of the binary packet protocol (PacketLayer.tla: send_message, fragmented arrival, read_message, key switch, per-epoch compression stream) model-checked by TLC; TLC-generated behaviours replayed on two real Packetizers keyed through the real _activate_outbound/_activate_inbound for every cipher x MAC x compression; seeded long streams validated against the spec by TLC",
-    "text": "TLC checks on the model that the receiver stays positioned where the head packet was sealed (keys, sequence number, compression stream) and delivers exactly the sent sequence, for all interleavings of sends, key switches, fragment arrivals and reads, also with the receiver explored inside read_all while need_rekey is up (NeedRekeyException may only fire with nothing of the next packet consumed), with mutated models (stale inflater/deflater after a key switch, NeedRekeyException with a partly consumed header, write_all skipping bytes after a send timeout) shown to break it; TLC-simulated behaviours (length classes, fragment splits, key switches) are executed on real Packetizer pairs for all 216 suites and compared read by read; random streams of 1-200 messages up to 70000 bytes with random read fragmentation, socket timeouts and 0-3 key switches are logged and checked event by event by the trace spec",
+    "text": "TLC checks on the model that the receiver stays positioned where the head packet was sealed (keys, sequence number, compression stream) and delivers exactly the sent sequence, for all interleavings of sends, key switches, fragment arrivals and reads, also with the receiver explored inside read_all while need_rekey is up (NeedRekeyException may only fire with nothing of the next packet consumed), with mutated models (stale inflater/deflater after a key switch, NeedRekeyException with a partly consumed header, write_all skipping bytes after a send timeout, deflating outside the write lock with several sender threads) shown to break it; TLC-simulated behaviours (length classes, fragment splits, key switches) are executed on real Packetizer pairs for all 216 suites and compared read by read; random streams of 1-200 messages up to 70000 bytes with random read fragmentation, socket timeouts and 0-3 key switches are logged and checked event by event by the trace spec",
     "note": "trusted: TLC, the in-memory socket (harness/drivers/packet.py Wire), the harness stand-in for the key exchange result (K, H set directly; NEWKEYS handled like _parse_newkeys), message identification by byte equality; MAC/cipher primitives are the real ones, their cryptographic strength is not claimed",
 }
 import random
@@ -10,7 +10,7 @@ from harness.core import cfg_text, Machinery, run_tlc
 from harness.drivers import packet as P
 
 BASE = {"SeqMod": 4, "MaxSwitch": 2, "MaxTamper": 0, "MaxChunk": 5, "Stricts": "@{TRUE, FALSE}",
-        "Zlibs": "@{TRUE, FALSE}", "Mutations": set(), "Modes": {"classic"}, "Partial": False}
+        "Zlibs": "@{TRUE, FALSE}", "Mutations": set(), "Modes": {"classic"}, "Partial": False, "SThreads": set()}
 ALL_MODES = {"classic", "etm", "aead"}
 INV = ["TypeOK", "PrefixOnly", "NoAlien", "AllDelivered", "NeverFailsHonest", "SyncHonest", "Caught"]
 # stale inflater / deflater after a key switch; NeedRekeyException raised with part of a header already consumed
@@ -299,6 +299,14 @@ def run(c):
     if caught != MUTANTS:
         raise Machinery("seeded defects not all noticed by the model's properties: %s of %s" % (sorted(caught), sorted(MUTANTS)))
 
+    # several sender threads: the write lock makes deflate order = sequence-number order = wire order; a sender that
+    # deflates before taking the lock (with deflate blocks that refer back to earlier packets) must be refuted
+    r = c.mc_holds("PacketLayer", cfg_text(constants=dict(BASE, NMsgs=2 if c.quick else 3, MaxSwitch=1, MaxChunk=8, SThreads="@{1, 2}",
+                                                          Stricts="@{TRUE}", Mutations={"zoutside"}), invariants=INV),
+                   name="two sender threads, explicit write lock + seeded defect ['zoutside']", workers=1)
+    if {x[1] for x in r.printed("CAUGHT")} != {"zoutside"}:
+        raise Machinery("deflating outside the write lock is not noticed by the model's properties")
+
     # ---- RP: spec -> code on every suite
     per_suite = 3 if c.quick else 40
     behs = generate_behaviours(c, 150 if c.quick else 1500, 4, 44)
@@ -332,6 +340,30 @@ def run(c):
                           psend=rnd.random() < 0.5)
         if t is not None:
             batch.append(t)
+    # ---- TV: concurrent senders on one Packetizer under the deterministic scheduler (fixed stratum: every schedule with
+    # one preemption of 2 threads x 1 message, per framing mode with compression and once without; plus seeded random
+    # schedules of 3 threads x 2 messages).  Bounded by counts only.
+    plans = [(("aes128-ctr", "hmac-sha2-256", "zlib"), 2, 1, "dfs", 1, 150), (("aes256-cbc", "hmac-sha2-512-etm@openssh.com", "zlib"), 2, 1, "dfs", 1, 150),
+             (("aes128-gcm@openssh.com", "hmac-sha1", "zlib@openssh.com"), 2, 1, "dfs", 1, 150), (("3des-cbc", "hmac-md5", "none"), 2, 1, "dfs", 1, 150),
+             (("aes192-ctr", "hmac-sha1-96", "zlib"), 3, 2, "random", 0, 25 if c.quick else 300)]
+    if not c.quick:
+        plans.append((("aes128-ctr", "hmac-sha1", "zlib"), 2, 2, "dfs", 2, 2500))
+    n_sched = 0
+    for suite, nth, per, mode, bound, runs in plans:
+        for v in P.concurrent_senders(suite, c.seed * 1000 + n_sched, nth, per, mode, bound, runs, strict=bool(n_sched % 2)):
+            n_sched += 1
+            meta = {"suite": "/".join(suite), "concurrent": True, "messages": v["written"], "switches": 0, "wire_order": v["order"],
+                    "max_len": 0, "recv_calls": 0, "schedule": [str(x) for x in v["labels"]], "need_rekey_exceptions": 0,
+                    "partial_sends": 0, "send_timeouts": 0}
+            if v["send_failures"] or v["hang"] or v["stuck"] or v["written"] != v["expected"]:
+                c.violation(vkey("P_loss", suite) + ":concurrent",
+                            "%d threads x %d messages on one Packetizer (%s): %d of %d messages were written; send_message failures %s, "
+                            "threads hang: %s; schedule %s" % (nth, per, "/".join(suite), v["written"], v["expected"], v["send_failures"],
+                                                             v["hang"] or v["stuck"], meta["schedule"]), meta)
+            batch.append({"strict": v["strict"], "zlib": v["zlib"], "mode0": v["mode0"], "ev": v["ev"], "meta": meta})
+    if n_sched < 100:
+        raise Machinery("only %d schedules of concurrent senders were explored" % n_sched)
+    c.extra["concurrent_sender_schedules"] = n_sched
     tv_consts = dict(BASE, NMsgs=100000, SeqMod=1073741824, MaxSwitch=1000, MaxChunk=1000, Stricts="@{TRUE, FALSE}", Zlibs="@{TRUE, FALSE}",
                      Modes=ALL_MODES)
     done = 0
@@ -347,16 +379,26 @@ def run(c):
             t = part[tid - 1]
             e = t["ev"][row[2] - 1]
             suite = tuple(t["meta"]["suite"].split("/"))
+            if t["meta"].get("concurrent"):
+                return (vkey(clause, suite) + ":concurrent",
+                        "%s, concurrent senders on one Packetizer: clause %s fails at event %d %s; wire order (thread, message) %s, "
+                        "schedule %s" % (t["meta"]["suite"], clause, row[2], e, t["meta"]["wire_order"], t["meta"]["schedule"]), {"trace": t})
             return (vkey(clause, suite), "%s: clause %s fails at event %d %s of a stream of %d messages, %d key switches, strict=%s"
                     % (t["meta"]["suite"], clause, row[2], e, t["meta"]["messages"], t["meta"]["switches"], t["strict"]),
                     {"trace": t})
         c.verdicts(res["VERDICT"], describe)
-    for t in batch:
+    for t in sorted(batch, key=lambda t: not t["meta"].get("concurrent")):
         m = t["meta"]
+        if m.get("concurrent"):
+            c.case(key=("conc", m["suite"], tuple(m["schedule"])),
+                   sample={"stage": "concurrent senders", "suite": m["suite"], "wire_order": m["wire_order"], "schedule": m["schedule"][:25]}
+                   if m["wire_order"][1:2] != [(0, 0)] and len(c.samples) < 4 else None)
+            continue
         c.case(key=("tv", m["suite"], t["strict"], m["messages"], m["switches"], m["max_len"], m["recv_calls"]),
                sample={"stage": "trace", **m, "strict": t["strict"], "first_events": t["ev"][:6]} if m["switches"] >= 2 and m["messages"] > 20 else None)
     c.traces += done
     n_exc_tv = sum(t["meta"]["need_rekey_exceptions"] for t in batch)
+    streams = [t for t in batch if not t["meta"].get("concurrent")]
     if (n_exc == 0 or n_exc_tv == 0) and not c.violations and not c.known_hits:
         raise Machinery("need_rekey was raised but no read ever saw NeedRekeyException (%d / %d)" % (n_exc, n_exc_tv))
     n_ps = sum(t["meta"]["partial_sends"] for t in batch)
@@ -368,14 +410,17 @@ def run(c):
     c.extra["need_rekey_exceptions_in_traces"] = n_exc_tv
     c.extra["suites"] = len(suites)
     c.extra["replayed_behaviours"] = nrp
-    c.extra["messages_in_traces"] = sum(t["meta"]["messages"] for t in batch)
+    c.extra["messages_in_traces"] = sum(t["meta"]["messages"] for t in streams)
     c.rule = ("replay: TLC-simulated behaviours of PacketLayer_Gen (4 messages of length classes 1 / block-1 / block / block+1 / mid / "
               "32-70 KB, <= 2 key switches each to a framing mode TLC picks, need_rekey raised on the receiver at a point TLC picks, the sending socket taking each packet in the pieces and with the timeouts TLC picks, every "
               "fragment split of up to 6 cells with a socket timeout between fragments, strict kex on/off) x all %d cipher x MAC x compression "
               "suites, %d per suite; traces: seeded streams of 1-200 messages with lengths 1..70000 biased to block boundaries, random "
               "recv() sizes and socket timeouts, 0-3 key switches (40 %% to other algorithms), need_rekey raised on the receiver in half of them, a sending socket that takes random parts and times out in half of them, "
-              "read through the loop of Transport.run (NeedRekeyException -> read again); distinct = distinct (suite, step sequence with concrete lengths) / "
+              "read through the loop of Transport.run (NeedRekeyException -> read again); concurrent senders: 2-3 threads calling send_message on one "
+              "Packetizer under a deterministic scheduler (switch points: write-lock operations and every line of send_message), every schedule "
+              "with one preemption for 4 suites + seeded random schedules; distinct = distinct (suite, step sequence with concrete lengths) / "
               "(suite, strict, shape) tuples" % (len(suites), per_suite))
     c.assumptions = ["both ends are given the same (K, H, session id) by the harness, as a completed key exchange would",
                      "zlib@openssh.com is exercised in its post-authentication state",
+                     "with concurrent senders 'the sender's sequence' is the order in which the messages went onto the wire",
                      "sequence-number wrap-around is covered on the model only (SeqMod = 4)"]
